@@ -1,6 +1,14 @@
 (* C03 — replay of implementation traces against the model (kind 1), the
    property monitors on the implementation's observations (kind 2) and the
-   tables of the pure decision functions (kind >= 3). *)
+   tables of the pure decision functions (kind >= 3).
+
+   VerifyBasicBlockFilter is not an oracle here: the model's [fo_verify] is
+   [verify_filter] on the abstract block of the height and the set of scripts
+   the filter matches (both computed by the harness without calling the
+   function under test); the implementation's verdict for every (block,
+   filter) pair is compared with it (kind 1, tag 10) and the monitors take
+   "the filter is refutable from the block" from the BIP-158 definition of
+   Spec.v ([omits_requiredb]), never from the implementation's verdict. *)
 From stdpp Require Import gmap list.
 From Coq Require Import ZArith.
 From Verif Require Import S1.Model C07.Spec C03.Model C03.Spec.
